@@ -3,7 +3,7 @@
 
    Unbold works on the preorder node sequence of a normalised tree (harness/project.py `flat`): a heading "hN(" whose whole
    content is one "StrongEmphasis(" ... ")" loses that wrapper; a heading whose whole content is "Emphasis(" "StrongEmphasis("
-   ... ")" ")" loses the inner wrapper; everything else is untouched.   CleanupsProp: flat(on) = Unbold(flat(off)).
+   ... ")" ")" loses the inner wrapper, repeatedly (a heading that is still entirely bold has not lost the bold); everything else is untouched.   CleanupsProp: flat(on) = Unbold(flat(off)).
 
    Spacing is stated on what a reader can see:
      gaps  -- for every pair of consecutive non-blank output lines: the number of blank lines between them under preserve
@@ -32,10 +32,10 @@ Unbold(f, i) ==
   ELSE IF f[i] \in Heads
        THEN LET hc == CloseOf(f, i + 1, 1) IN
             IF i + 1 <= Len(f) /\ f[i + 1] = "StrongEmphasis(" /\ CloseOf(f, i + 2, 1) = hc - 1
-              THEN Unbold(Drop(f, i + 1, hc - 1), i + 1)
+              THEN Unbold(Drop(f, i + 1, hc - 1), i)          \* re-examine: bold nested directly in bold is bold still
             ELSE IF i + 2 <= Len(f) /\ f[i + 1] = "Emphasis(" /\ f[i + 2] = "StrongEmphasis("
                     /\ CloseOf(f, i + 2, 1) = hc - 1 /\ CloseOf(f, i + 3, 1) = hc - 2
-              THEN Unbold(Drop(f, i + 2, hc - 2), i + 1)
+              THEN Unbold(Drop(f, i + 2, hc - 2), i)
             ELSE Unbold(f, i + 1)
        ELSE Unbold(f, i + 1)
 CleanupsProp == Unbold(TR.off, 1) = TR.on
